@@ -230,101 +230,108 @@ Proof.
   - intros u P X. rewrite E. apply past_put_other; [|exact X]. intros ->. specialize (C t). lia.
 Qed.
 
+Ltac qset u G' :=
+  match goal with E : nth_error (gens _) _ = Some _ |- _ =>
+    let Q := fresh "Q" in pose proof (cnt_queue_set u _ _ _ G' E) as Q; cbn [g_items g_set_items g_close g_cancelled] in Q;
+    try match goal with E' : g_items _ = _ |- _ => rewrite E' in Q end;
+    rewrite ?cnt_app, ?cnt_cons, ?cnt_nil in Q; revert Q end.
+Ltac wset u x' :=
+  match goal with E : nth_error (workers _) _ = Some _ |- _ =>
+    let R := fresh "R" in pose proof (cnt_exec_set u _ _ _ x' E) as R; cbn [ex_of] in R;
+    rewrite ?cnt_cons, ?cnt_nil in R; revert R end.
+Ltac fin := counts; rewrite ?cnt_app, ?cnt_cons, ?cnt_nil; intros; lia.
+
 Lemma G_step c s l s' : G s -> step c s l = Some s' -> G s'.
 Proof.
   intros Gs H. unfold step in H. destruct (panicked s) eqn:EP; [discriminate|].
   destruct l.
   - (* SubmitCall *)
     break H. injection H as <-. apply (G_intro s); [exact Gs| | |].
-    + unfold keys; cbn. constructor; [apply sub_of_none; exact E|apply (g_keys _ Gs)].
-    + intros u. left. counts. lia.
+    + unfold keys; cbn. constructor; [apply sub_of_none; assumption|apply (g_keys _ Gs)].
+    + intros u. left. fin.
     + intros u _ (st & I & P). exists st. split; [right; exact I|exact P].
   - (* SubmitBegin *)
     break H. injection H as <-.
-    apply (G_put s _ t (if running s then SPending (cur s) else SRejected) Gs (G_not_past _ _ _ Gs E eq_refl) eq_refl).
-    intros u. counts. lia.
+    match goal with E : sub_of _ _ = Some _ |- _ => pose proof (G_not_past _ _ _ Gs E eq_refl) as Z end.
+    apply (G_put s _ t (if running s then SPending (cur s) else SRejected) Gs Z); [reflexivity|].
+    intros u. fin.
   - (* SubmitEnq *)
-    break H; injection H as <-; assert (Z := G_not_past _ _ _ Gs E eq_refl).
+    break H; injection H as <-;
+    match goal with E : sub_of _ _ = Some _ |- _ => pose proof (G_not_past _ _ _ Gs E eq_refl) as Z; pose proof (sub_of_in _ _ _ E) as I end.
     + (* panic *)
-      apply (G_put s _ t SPanic Gs Z eq_refl). intros u. counts. lia.
+      apply (G_put s _ t SPanic Gs Z); [reflexivity|]. intros u. fin.
     + (* enqueue *)
       apply (G_intro s); [exact Gs| | |].
       * unfold keys; proj. rewrite upd_sub_keys. apply (g_keys _ Gs).
-      * intros u. pose proof (cnt_queue_set u _ _ _ (g_set_items g0 (g_items g0 ++ [t])) E0) as Q.
-        cbn [g_items g_set_items] in Q. rewrite cnt_app, cnt_cons, cnt_nil in Q.
-        rewrite cnt_places in Z. revert Q. counts. intros Q.
+      * intros u. rewrite cnt_places in Z. unfold queued in Z.
+        match goal with E : nth_error (gens _) _ = Some ?G0 |- _ => qset u (g_set_items G0 (g_items G0 ++ [t])) end.
+        counts. intros Q.
         destruct (Nat.eq_dec t u) as [->|N].
-        -- right. repeat split; try lia. apply (past_put_self s u SWait (SPending g)); [apply sub_of_in; exact E|reflexivity].
+        -- right. split; [lia|]. split; [rewrite cnt_places; unfold queued; lia|]. apply (past_put_self s u SWait _ I). reflexivity.
         -- left. lia.
       * intros u P X. destruct (Nat.eq_dec u t) as [->|N].
-        -- apply (past_put_self s t SWait (SPending g)); [apply sub_of_in; exact E|reflexivity].
+        -- apply (past_put_self s t SWait _ I). reflexivity.
         -- apply (past_put_other s); auto.
   - (* SubmitTimeout *)
     break H. injection H as <-.
-    apply (G_put s _ t SRejected Gs (G_not_past _ _ _ Gs E eq_refl) eq_refl). intros u. counts. lia.
+    match goal with E : sub_of _ _ = Some _ |- _ => pose proof (G_not_past _ _ _ Gs E eq_refl) as Z end.
+    apply (G_put s _ t SRejected Gs Z); [reflexivity|]. intros u. fin.
   - (* Take *)
     break H. injection H as <-. apply (G_same s _ Gs eq_refl). intros u.
-    pose proof (cnt_queue_set u _ _ _ (g_set_items g0 l) E0) as Q. rewrite E1 in Q. cbn [g_items g_set_items] in Q.
-    pose proof (cnt_exec_set u _ _ _ (WExec t) E) as R. cbn [ex_of] in R.
-    rewrite !cnt_cons, !cnt_nil in *. revert Q R. counts. lia.
+    match goal with E : nth_error (gens _) _ = Some ?G0, E' : g_items ?G0 = _ :: ?q |- _ => qset u (g_set_items G0 q) end.
+    match goal with E : g_items _ = ?t0 :: _ |- _ => wset u (WExec t0) end. fin.
   - (* ExitCtx *)
-    break H. injection H as <-. apply (G_same s _ Gs eq_refl). intros u.
-    pose proof (cnt_exec_set u _ _ _ WExit E) as R. cbn [ex_of] in R. revert R. counts. lia.
+    break H. injection H as <-. apply (G_same s _ Gs eq_refl). intros u. wset u WExit. fin.
   - (* ExitClosed *)
-    break H. injection H as <-. apply (G_same s _ Gs eq_refl). intros u.
-    pose proof (cnt_exec_set u _ _ _ WExit E) as R. cbn [ex_of] in R. revert R. counts. lia.
+    break H. injection H as <-. apply (G_same s _ Gs eq_refl). intros u. wset u WExit. fin.
   - (* Finish *)
     break H. injection H as <-. apply (G_tell s _ t (SGot (Some t)) Gs eq_refl eq_refl). intros u.
-    pose proof (cnt_exec_set u _ _ _ (WIdle (cur s)) E) as R. cbn [ex_of] in R.
-    rewrite !cnt_cons, !cnt_nil in *. revert R. counts. rewrite cnt_cons. lia.
-  - (* StopCall *) break H. injection H as <-. apply (G_same s _ Gs eq_refl). intros u. counts. lia.
+    wset u (WIdle (cur s)). fin.
+  - (* StopCall *) break H. injection H as <-. apply (G_same s _ Gs eq_refl). intros u. fin.
   - (* StopCAS *)
     break H; injection H as <-; apply (G_same s _ Gs eq_refl); intros u.
-    + pose proof (cnt_queue_set u _ _ _ (g_cancelled g) E2) as Q. cbn [g_items g_cancelled] in Q. revert Q. counts. lia.
-    + counts. lia.
+    + match goal with E : nth_error (gens _) _ = Some ?G0 |- _ => qset u (g_cancelled G0) end. fin.
+    + fin.
   - (* StopClose *)
     break H; injection H as <-; apply (G_same s _ Gs eq_refl); intros u.
-    pose proof (cnt_queue_set u _ _ _ (g_close g) E1) as Q. cbn [g_items g_close] in Q. revert Q. counts. lia.
+    match goal with E : nth_error (gens _) _ = Some ?G0 |- _ => qset u (g_close G0) end. fin.
   - (* StopWait *)
-    break H; injection H as <-; apply (G_same s _ Gs eq_refl); intros u; counts; lia.
+    break H; injection H as <-; apply (G_same s _ Gs eq_refl); intros u; fin.
   - (* StopDrain *)
     break H; injection H as <-.
-    + apply (G_same s _ Gs eq_refl); intros u; counts; lia.
+    + apply (G_same s _ Gs eq_refl); intros u; fin.
     + apply (G_tell s _ t SNotExec Gs eq_refl eq_refl). intros u.
-      pose proof (cnt_queue_set u _ _ _ (g_set_items g0 l) E0) as Q. rewrite E1 in Q.
-      cbn [g_items g_set_items] in Q. rewrite cnt_cons in Q. revert Q. counts. lia.
-  - (* RzCall *) break H. injection H as <-. apply (G_same s _ Gs eq_refl). intros u. counts. lia.
+      match goal with E : nth_error (gens _) _ = Some ?G0, E' : g_items ?G0 = _ :: ?q |- _ => qset u (g_set_items G0 q) end. fin.
+  - (* RzCall *) break H. injection H as <-. apply (G_same s _ Gs eq_refl). intros u. fin.
   - (* RzBegin *)
-    break H; injection H as <-; apply (G_same s _ Gs eq_refl); intros u; counts; lia.
+    break H; injection H as <-; apply (G_same s _ Gs eq_refl); intros u; fin.
   - (* RzStop *)
     break H; injection H as <-; apply (G_same s _ Gs eq_refl); intros u.
-    + pose proof (cnt_queue_set u _ _ _ (g_cancelled g) E2) as Q. cbn [g_items g_cancelled] in Q. revert Q. counts. lia.
-    + counts. rewrite cnt_nil. lia.
-    + pose proof (cnt_queue_set u _ _ _ (g_close g) E1) as Q. cbn [g_items g_close] in Q. revert Q. counts. rewrite cnt_nil. lia.
+    + match goal with E : nth_error (gens _) _ = Some ?G0 |- _ => qset u (g_cancelled G0) end. fin.
+    + fin.
+    + match goal with E : nth_error (gens _) _ = Some ?G0 |- _ => qset u (g_close G0) end. fin.
   - (* RzClose *)
     break H; injection H as <-; apply (G_same s _ Gs eq_refl); intros u.
-    pose proof (cnt_queue_set u _ _ _ (g_close g) E1) as Q. cbn [g_items g_close] in Q. revert Q. counts. lia.
+    match goal with E : nth_error (gens _) _ = Some ?G0 |- _ => qset u (g_close G0) end. fin.
   - (* RzWait *)
-    break H; injection H as <-; apply (G_same s _ Gs eq_refl); intros u; counts; rewrite cnt_nil; lia.
+    break H; injection H as <-; apply (G_same s _ Gs eq_refl); intros u; fin.
   - (* RzDrain *)
     break H; injection H as <-; apply (G_same s _ Gs eq_refl); intros u.
-    + counts. lia.
-    + pose proof (cnt_queue_set u _ _ _ (g_set_items g l) E0) as Q. rewrite E1 in Q.
-      cbn [g_items g_set_items] in Q. rewrite cnt_cons in Q. revert Q. counts. rewrite cnt_app, cnt_cons, cnt_nil. lia.
+    + fin.
+    + match goal with E : nth_error (gens _) _ = Some ?G0, E' : g_items ?G0 = _ :: ?q |- _ => qset u (g_set_items G0 q) end. fin.
   - (* RzSwap *)
     break H; injection H as <-; apply (G_same s _ Gs eq_refl); intros u; counts;
       rewrite ?flat_map_app, ?exec_tasks_app, ?exec_tasks_repeat_idle, ?cnt_app; cbn [flat_map g_items g_fresh app];
       rewrite ?cnt_nil; lia.
   - (* RzReenq *)
     break H; injection H as <-.
-    + apply (G_same s _ Gs eq_refl); intros u; counts; lia.
-    + apply (G_same s _ Gs eq_refl); intros u; counts; lia.
+    + apply (G_same s _ Gs eq_refl); intros u; fin.
+    + apply (G_same s _ Gs eq_refl); intros u; fin.
     + apply (G_same s _ Gs eq_refl); intros u.
-      pose proof (cnt_queue_set u _ _ _ (g_set_items g (g_items g ++ [t])) E1) as Q.
-      cbn [g_items g_set_items] in Q. rewrite cnt_app, cnt_cons, cnt_nil in Q. revert Q. counts. rewrite cnt_cons. lia.
+      match goal with E : nth_error (gens _) _ = Some ?G0 |- _ => qset u (g_set_items G0 (g_items G0 ++ [t])) end. fin.
     + apply (G_tell s _ t (dropped c) Gs); [unfold dropped; destruct (overflow_closes c); reflexivity|reflexivity|].
-      intros u; counts. rewrite cnt_cons. lia.
-    + apply (G_same s _ Gs eq_refl); intros u; counts; lia.
+      intros u; fin.
+    + apply (G_same s _ Gs eq_refl); intros u; fin.
     + apply (G_tell s _ t (dropped c) Gs); [unfold dropped; destruct (overflow_closes c); reflexivity|reflexivity|].
-      intros u; counts. rewrite cnt_cons. lia.
+      intros u; fin.
 Qed.
